@@ -180,7 +180,7 @@ def _dir_image(env):
     return files, dirs
 
 
-def h_read_only(cut: int, template: str, torn: bool, idx: str = 'own') -> None:
+def h_read_only(cut: int, template: str, torn: bool, idx: str = 'own', travel: int = 0) -> None:
     """Read-only open (optionally of a file ending in an unfinished transaction): no file is
     modified, every writer raises ReadOnlyError, reads agree with the committed history."""
     with untraced():
@@ -218,8 +218,22 @@ def h_read_only(cut: int, template: str, torn: bool, idx: str = 'own') -> None:
         before = _dir_image(env)
         nlog = len(env.fs.log)
         nops = env.fs.nops
+    # time travel (read-only only): open as of a solver-chosen transaction boundary; whether a saved index lies next to
+    # the file must make no difference
+    kw = {}
+    model = h.m
+    if torn or idx == 'foreign':
+        assume(travel == 0)
+    else:
+        tk = choose(travel, len(h.m.txns) + 1)
+        if tk:
+            from zverif.model.revstore import RevStore
+            stop_tid = h.m.txns[tk - 1].tid
+            kw = dict(stop=stop_tid)
+            model = RevStore([t_ for t_ in h.m.txns if t_.tid < stop_tid])
+            note('travel', tk)
     try:
-        r = env.filestorage(read_only=True)
+        r = env.filestorage(read_only=True, **kw)
     except Exception as ex:
         fail('read-only open raised', type(ex).__name__, str(ex)[:200])
     with untraced():
@@ -232,7 +246,12 @@ def h_read_only(cut: int, template: str, torn: bool, idx: str = 'own') -> None:
             before[0][DATA] = bytes(node.data)
     with untraced():
         check(r.isReadOnly(), 'storage does not report read-only')
-        B.full_battery(r, h.m, iterator=not short_tail)
+        if kw:
+            # (iterator() always walks the whole file)
+            if model.txns:
+                B.full_battery(r, model, iterator=False)
+        else:
+            B.full_battery(r, h.m, iterator=not short_tail)
         t = T.meta(b'w')
         calls = [
             lambda: r.tpc_begin(t),
@@ -254,7 +273,8 @@ def h_read_only(cut: int, template: str, torn: bool, idx: str = 'own') -> None:
                 pass
             except StorageTransactionError:
                 check(c == 8, 'unexpected StorageTransactionError for call %d' % c)
-        B.q_last(r, h.m)
+        if not kw or model.txns:
+            B.q_last(r, model)
         r.close()
         after = _dir_image(env)
         check(env.fs.nops == nops and len(env.fs.log) == nlog, 'read-only use issued a mutating file operation',
